@@ -168,6 +168,9 @@ type Coverage map[string]interface{}
 func (r *Run) Finish(cov Coverage) {
 	r.mu.Lock()
 	defer r.mu.Unlock()
+	if IsWorker() {
+		r.finishShard(cov)
+	}
 	os.MkdirAll(filepath.Join(VerifDir, "replays"), 0o755)
 	os.MkdirAll(filepath.Join(VerifDir, "evidence"), 0o755)
 
